@@ -259,11 +259,13 @@ def viaTransitions (p : Pat) (cfg : Cfg) (r : Run) (e : Event) : Adv :=
   | none => .noMatch
 
 /-- "Check epsilon transitions" arm for a Kleene state (it has no event transitions): epsilons are
-[self (no transitions), continue]; a continue state that is Accept completes the run without consuming
-the event, otherwise the continue state's only transition is the next step. This arm only checks
-Accept: a Kleene `nxt` is entered without capture initialisation or emission. -/
+[self (no transitions), continue]. A continue state that is Accept belongs to a *trailing* `all` step
+(Kleene + self-loop + has_epsilon_to_accept): that target is skipped (`continue`) — the closure was
+already reported through `CompleteAndContinue`, the run stays — so the arm ends in `NoMatch`.
+Otherwise the continue state's only transition is the next step. This arm only checks Accept on the
+entered state: a Kleene `nxt` is entered without capture initialisation or emission. -/
 def viaEpsilon (p : Pat) (r : Run) (e : Event) : Adv :=
-  if p.isLast r.pos then .complete r.result
+  if p.isLast r.pos then .noMatch
   else match p.steps[r.pos + 1]? with
     | some nxt =>
       if matchesState nxt e r.caps then
@@ -465,17 +467,19 @@ def epsInner (nfa : Nfa) (r : Run) (e : Event) : List Nat → Option Adv
         some (if nx.stype == .accept then .complete r'.result else .continue r')
       else epsInner nfa r e rest
 
-/-- the `for &eps_id in &current_state.epsilon_transitions` loop -/
-def epsLoop (nfa : Nfa) (r : Run) (e : Event) : List Nat → Adv
+/-- the `for &eps_id in &current_state.epsilon_transitions` loop. `skipAccept`: the current state is
+Kleene + self_loop + has_epsilon_to_accept (trailing `all`), for which an Accept target is skipped. -/
+def epsLoop (nfa : Nfa) (r : Run) (e : Event) (skipAccept : Bool) : List Nat → Adv
   | [] => .noMatch
   | eid :: rest =>
     match nfa[eid]? with
     | none => .noMatch
     | some es =>
-      if es.stype == .accept then .complete r.result
+      if es.stype == .accept then
+        if skipAccept then epsLoop nfa r e skipAccept rest else .complete r.result
       else match epsInner nfa r e es.trans with
         | some a => a
-        | none => epsLoop nfa r e rest
+        | none => epsLoop nfa r e skipAccept rest
 
 /-- the KLEENE SELF-LOOP arm over an NFA state -/
 def selfLoopN (cur : NState) (cfg : Cfg) (r : Run) (e : Event) : Adv :=
@@ -493,7 +497,7 @@ def advanceN (nfa : Nfa) (cfg : Cfg) (r : Run) (e : Event) : Adv :=
     else if cur.stype == .kleene && cur.selfLoop && matchesN cur e r.caps then selfLoopN cur cfg r e
     else match transLoop nfa cfg r e cur.trans with
       | some a => a
-      | none => epsLoop nfa r e cur.eps
+      | none => epsLoop nfa r e (cur.stype == .kleene && cur.selfLoop && cur.epsAccept) cur.eps
 
 /-- `try_start_run_shared` over the NFA: first transition of the start state whose target matches -/
 def tryStartN (nfa : Nfa) (e : Event) : Option Run :=
